@@ -5,6 +5,29 @@ let put_rule (rw : float list list) =
 let put_res pf = function Ok v -> pf v | Exit -> put_w "EXIT" | OOB -> put_w "OOB" | Fuel -> put_w "FUEL"
 let bind x f = match x with Ok v -> f v | Exit -> Exit | OOB -> OOB | Fuel -> Fuel
 
+(* ---- nested integrations and sessions (grammar: checks/C12.py).  The library keeps no state between calls, so a session
+   is answered request by request by the pure model; a request abandoned by its integrand (exception) answers with the
+   number of evaluations of the innermost integrand reached. *)
+exception Abandon
+exception Stop of string
+let kind_of = function "I" -> KInt | "F" -> KFun | "U" -> KVal | "D" -> KDef | k -> failwith ("unknown kind " ^ k)
+let read_levels r d =
+  List.init d (fun _ -> let k = kind_of (word r) in let n = integer r in let a = num r in let b = num r in ((k, nat_of_int n), (a, b)))
+let count = ref 0
+let abandon_at = ref 0
+let read_core r : float list -> float res =
+  let arr xs = let v = Array.make 16 0.0 in List.iteri (fun k x -> if k < 16 then v.(k) <- x) xs; v in
+  let tick () = incr count; if !abandon_at > 0 && !count >= !abandon_at then raise Abandon in
+  match word r with
+  | "P" -> let e = parse_fexpr r in (fun xs -> tick (); Ok (eval_fexpr e (arr xs)))
+  | "G" -> let k = integer r in let n = integer r in let a = num r in let b = num r in let e = parse_fexpr r in
+      (fun xs -> tick (); let ev = eval_fexpr e (arr xs) in
+        bind (gl_rule fops (nat_of_int n) a b) (fun rw ->
+        bind (gl_integrate_values fops (List.init k (fun _ -> 1.0)) rw) (fun s -> Ok (ev *. s))))
+  | c -> failwith ("unknown core " ^ c)
+let force = function Ok v -> v | Exit -> raise (Stop "EXIT") | OOB -> raise (Stop "OOB") | Fuel -> raise (Stop "FUEL")
+let stop_with w = Buffer.clear buf; first := true; put_w w
+
 let handler r =
   match word r with
   | "rule" -> let n = integer r in let a = num r in let b = num r in
@@ -38,6 +61,33 @@ let handler r =
   | "fun_rows" -> (* function overload on a caller-supplied table of non-empty rows: table, then the integrand *)
       let rows = table r in let e = parse_fexpr r in
       put_res put_f (gl_integrate_fun fops (fun1 e) rows)
+  | "nest" -> (* the outermost level through each of the three overloads *)
+      let d = integer r in let levs = read_levels r d in let core = read_core r in
+      count := 0; abandon_at := 0;
+      (try
+        List.iter (fun k ->
+          let levs' = match levs with ((_, n), ab) :: rest -> ((k, n), ab) :: rest | [] -> [] in
+          put_f (force (gl_nest fops levs' core []))) [KInt; KFun; KVal]
+       with Stop w -> stop_with w)
+  | "sess" ->
+      let k = integer r in
+      (try
+        for _ = 1 to k do
+          match word r with
+          | "R" -> let n = integer r in let a = num r in let b = num r in
+              put_rule (force (gl_rule fops (nat_of_int n) a b))
+          | "V" -> let n = integer r in let a = num r in let b = num r in let vals = list r in
+              put_f (force (bind (gl_rule fops (nat_of_int n) a b) (fun rw -> gl_integrate_values fops vals rw)))
+          | ("N" | "X") as c ->
+              let at = if c = "X" then integer r else 0 in
+              let d = integer r in let levs = read_levels r d in let core = read_core r in
+              count := 0; abandon_at := at;
+              (match (try Some (gl_nest fops levs core []) with Abandon -> None) with
+               | Some v -> abandon_at := 0; put_f (force v)
+               | None -> abandon_at := 0; put_w "A"; put_i !count)
+          | c -> failwith ("unknown request " ^ c)
+        done
+       with Stop w -> stop_with w)
   | o -> put_w ("MODELERR unknown_op_" ^ o)
 
 let () = run handler
